@@ -219,7 +219,10 @@ end sys
 theorem ledger_model_is_source :
     (∀ s t k tot c, PgBifrost.Gen.LedgerSrc.updateSeen s t k tot c = PgBifrost.Ledger.updateSeen s t k tot c) ∧
     (∀ s t k n, PgBifrost.Gen.LedgerSrc.updateWritten s t k n = some (PgBifrost.Ledger.updateWritten s t k n)) ∧
-    (∀ s k, PgBifrost.Gen.LedgerSrc.remove s k = some (PgBifrost.Ledger.remove s k)) :=
-  ⟨PgBifrost.LedgerSrcProofs.updateSeen_eq, PgBifrost.LedgerSrcProofs.updateWritten_eq, PgBifrost.LedgerSrcProofs.remove_eq⟩
+    (∀ s k, PgBifrost.Gen.LedgerSrc.remove s k = some (PgBifrost.Ledger.remove s k)) ∧
+    -- … and `ProgressTracker.emitProgress` (Gen/EmitSrc.lean: scan while releasable, emit the LAST collected
+    -- commit position, remove every collected entry) is the model's `emit`
+    (∀ s, PgBifrost.Gen.EmitSrc.emitProgress s = PgBifrost.Ledger.emit s) :=
+  ⟨PgBifrost.LedgerSrcProofs.updateSeen_eq, PgBifrost.LedgerSrcProofs.updateWritten_eq, PgBifrost.LedgerSrcProofs.remove_eq, PgBifrost.LedgerSrcProofs.emit_eq⟩
 
 end PgBifrost.Props.C02
